@@ -1,7 +1,7 @@
 /-
   C13 model driver. Line protocol (S-expressions, one per line):
 
-    (schema (schema Q M Sub (kind name (req…) ((f ty (req…) ((a ty)…))…) (ifaces…) (members…) (values…) ((k ty)…))…))
+    (schema (schema Q M Sub (kind name (req…) ((f ty (req…) ((a ty)…) dep|-)…) (ifaces…) (members…) (values…) ((k ty)…) (deprecated values…))…))
         → (accepted true) | (accepted false)          -- sets the current schema
     (erase (features…))   → (schema …) of `erase S F`
     (view (features…))    → (view (types …) (query Q) (mutation M|-) (type N …)… (lk N …)… (gf T f …)… (sp P T b)…)
@@ -50,11 +50,11 @@ def parseArgs (x : Sexp) : Option (List Arg) :=
   | _ => none
 
 def parseField : Sexp → Option Field
-  | .list [.atom n, .atom t, req, args] => do
+  | .list [.atom n, .atom t, req, args, .atom dep] => do
     let ty ← parseTRef t
     let r ← atoms req
     let a ← parseArgs args
-    pure { name := n, ty := ty, req := r, args := a }
+    pure { name := n, ty := ty, req := r, args := a, deprecated := dep == "dep" }
   | _ => none
 
 def parseKind : String → Option Kind
@@ -62,7 +62,7 @@ def parseKind : String → Option Kind
   | "union" => some .union | "enum" => some .enum | "input" => some .input | _ => none
 
 def parseType : Sexp → Option TypeDef
-  | .list [.atom k, .atom n, req, .list fs, ifaces, members, values, inputs] => do
+  | .list [.atom k, .atom n, req, .list fs, ifaces, members, values, inputs, depValues] => do
     let kind ← parseKind k
     let r ← atoms req
     let fields ← fs.mapM parseField
@@ -70,7 +70,9 @@ def parseType : Sexp → Option TypeDef
     let m ← atoms members
     let v ← atoms values
     let ins ← parseArgs inputs
-    pure { kind := kind, name := n, req := r, fields := fields, interfaces := i, members := m, values := v, inputs := ins }
+    let dv ← atoms depValues
+    pure { kind := kind, name := n, req := r, fields := fields, interfaces := i, members := m, values := v, inputs := ins,
+           deprecatedValues := dv }
   | _ => none
 
 def parseSchema : Sexp → Option Schema
@@ -95,14 +97,16 @@ def schemaSexp (S : Schema) : Sexp :=
   .list (Sexp.atom "schema" :: Sexp.str S.query :: Sexp.str (S.mutation.getD "") :: Sexp.str (S.subscription.getD "") ::
     S.types.map fun t =>
       .list [Sexp.str (kindStr t.kind), Sexp.str t.name, strsSexp t.req,
-        .list (t.fields.map fun f => .list [Sexp.str f.name, Sexp.str f.ty.str, strsSexp f.req, argsSexp f.args]),
-        strsSexp t.interfaces, strsSexp t.members, strsSexp t.values, argsSexp t.inputs])
+        .list (t.fields.map fun f => .list [Sexp.str f.name, Sexp.str f.ty.str, strsSexp f.req, argsSexp f.args,
+          Sexp.atom (if f.deprecated then "dep" else "-")]),
+        strsSexp t.interfaces, strsSexp t.members, strsSexp t.values, argsSexp t.inputs, strsSexp t.deprecatedValues])
 
 def optList {α} (f : α → Sexp) : Option (List α) → Sexp
   | none => Sexp.atom "none"
   | some xs => .list (xs.map f)
 
-def sigSexp (s : FieldSig) : Sexp := .list [Sexp.str s.name, Sexp.str s.ty.str, argsSexp s.args]
+def sigSexp (s : FieldSig) : Sexp :=
+  .list [Sexp.str (if s.deprecated then s.name ++ "~" else s.name), Sexp.str s.ty.str, argsSexp s.args]
 
 def viewSexp (S : Schema) (v : View) : Sexp :=
   let names := S.types.map (·.name) ++ ["Nope", "__Type"]
@@ -112,11 +116,14 @@ def viewSexp (S : Schema) (v : View) : Sexp :=
     | some p =>
       Sexp.list [Sexp.atom "type", Sexp.str n,
         Sexp.str (match v.kindOf p with | some k => kindIntro k | none => "?"),
-        optList sigSexp (v.fieldsListing p),
+        optList sigSexp (v.fieldsListing true p),
         optList Sexp.str (v.interfacesOf p),
         optList Sexp.str (v.possibleTypes p),
         optList (fun (a : Arg) => Sexp.list [Sexp.str a.name, Sexp.str a.ty.str]) (v.inputFields p),
-        optList Sexp.str (v.enumValues p)]
+        optList Sexp.str (v.enumValues true p),
+        -- the same listings without includeDeprecated
+        optList sigSexp (v.fieldsListing false p),
+        optList Sexp.str (v.enumValues false p)]
   let lkEntries := names.map fun n =>
     Sexp.list [Sexp.atom "lk", Sexp.str n,
       Sexp.atom (match v.lookupF n with
